@@ -94,6 +94,8 @@ def random_behaviours(rng, n, focus, maxlen=36):
                         lines.append("chunkin m=%d p=%d" % (slots, rng.choice([1, 2])))
                     else:
                         lines.append("request m=%d p=%d" % (slots, rng.choice([1, 2])))
+            elif x < 0.66 and focus in ("c05", "c05x"):
+                lines.append("selfann c=%d ttl=%d" % (rng.choice(local), rng.choice([1, 3, 9, 30])))
             elif x < 0.74 and focus != "c03":
                 lines.append("tick")
                 if rng.random() < 0.6:
@@ -153,6 +155,8 @@ def hist_to_script(h, seed, foreign_offset=0):
                 lines.append("recv m=%d" % slot)
             else:
                 lines.append("announce m=%d p=%d ttl=%d assign=%d" % (slot, a["p"], a["attl"], 1 if a["assign"] else 0))
+        elif op == "selfann":
+            lines.append("selfann c=%d ttl=%d" % (a["c"], a["ttl"]))
         elif op == "fetch":
             lines.append(["fetch c=%d", "peerreq c=%d p=1", "export c=%d"][k % 3] % a["c"])
         elif op == "list":
